@@ -218,6 +218,20 @@ def _defect(sb):
                 return 'non-canonical IPv6 literal (leading zero)'
     if re.match(rb'^\*\.([0-9]+\.){3}[0-9]+(:|$)', rest) or rest.startswith(b'*.['):
         return 'wildcard before an IP'
+    if not rest.startswith(b'['):
+        host = rest
+        mp = re.match(rb'^(.*):([0-9]+|\*)$', rest, re.S)
+        if mp:
+            host = mp.group(1)
+        if host.startswith(b'*.'):
+            host = host[2:]
+        if host.endswith(b'.'):
+            host = host[:-1]
+        if host and re.match(rb'^[a-z0-9_.-]+$', host) and not re.match(rb'^[0-9.]+$', host):
+            if any(len(l) > 63 for l in host.split(b'.')):
+                return 'label longer than 63 bytes'
+            if len(host) > 253:
+                return 'domain longer than 253 bytes'
     return None
 
 
@@ -263,6 +277,12 @@ def judge_C01(mm):
         if mr is None or mr['hdrs'].get(runner.H_ACAO) == [runner.hx('*')]:
             return None
     elif runner.hx('*') in (cfg[0].split(',') if cfg[0] != '~' else []):
+        # the configuration lists `*`: every origin is allowed, which an actual request sees as Access-Control-Allow-Origin `*`
+        # (the model, for an accepted configuration, answers so: C01_allow_all)
+        mr = runner.parse_resp(mparts[0]) if mparts else None
+        if mr is not None and mr['hdrs'].get(runner.H_ACAO) == [runner.hx('*')] and r['next'] == '1' and origin_vals \
+                and r['hdrs'].get(runner.H_ACAO) not in ([runner.hx('*')], origin_vals[:1]):
+            return 'the configuration lists `*`, yet the actual request with Origin %r gets no Access-Control-Allow-Origin' % bytes.fromhex(origin_vals[0] if origin_vals[0] != '-' else '')
         return None
     if not origin_vals:
         return None
